@@ -68,8 +68,8 @@ def plan(tier, seed):
         n_grid, n_hist, parts, secs = 2000, 2000, 5, 35
         n_rt, rt_parts = 64, 2
     else:
-        n_grid, n_hist, parts, secs = 120_000, 80_000, 7, 560
-        n_rt, rt_parts = 4000, 2
+        n_grid, n_hist, parts, secs = 700_000, 450_000, 7, 560
+        n_rt, rt_parts = 12000, 2
     shards = []
     for kind, total in (('grid', n_grid), ('hist', n_hist)):
         for p, (f, n) in enumerate(split(total, parts)):
